@@ -27,6 +27,10 @@ CORPUS = os.path.join(common.CORPUS_DIR, PROP)
 # real-code plumbing
 
 
+class _BadOp(Exception):
+	pass
+
+
 class Real:
 	def __init__(self) -> None:
 		from data.syntax.gram_tokenizer import gram_tokenizer
@@ -74,8 +78,8 @@ class Real:
 				return self.show_toks(lexer.post_filter([self.make_tok(s) for s in op[1]]))
 			if kind == 'rebuild':
 				return self.show_toks(self.tokenizers[dn]._rebuild([self.make_tok(s) for s in op[1]]))
-			raise RuntimeError(f'unknown op {op}')
-		except RuntimeError:
+			raise _BadOp(f'unknown op {op}')
+		except _BadOp:
 			raise
 		except Exception as e:  # noqa: BLE001
 			return exc_enum(e)
@@ -96,6 +100,34 @@ class Real:
 			else:
 				out.append(('TOK', t.string))
 		return out
+
+	def significant_fresh(self, src: str) -> list[tuple[str, str]]:
+		"""The same through a brand-new Tokenizer (no shared instance, no history)."""
+		from rogw.tranp.implements.syntax.tranp.tokenizer import Tokenizer
+		return [(t.type.name, t.string) for t in Tokenizer().parse(src)]
+
+	def pipeline(self, toks: list[Any]) -> list[tuple[str, str]]:
+		"""_rebuild(post_filter(raw tokens) + [EOF]) as Tokenizer.parse composes them, simplified."""
+		lexer, tokenizer = self.lexers['py'], self.tokenizers['py']
+		return [(t.type.name, t.string) for t in tokenizer._rebuild([*lexer.post_filter(toks), self.Token.EOF()])]
+
+	def lex_shaped(self, toks: list[Any]) -> bool:
+		"""`lexShaped pyDef` of lean/Tranp/Lemmas/Lexer.lean."""
+		T = self.TokenTypes
+		ws = self.defs['py'].white_space
+		space = lambda t: t.type in (T.WhiteSpace, T.LineBreak)
+		for i, a in enumerate(toks):
+			if a.type in (T.EOF, T.NewLine, T.Indent, T.Dedent):
+				return False
+			if space(a) and (len(a.string) == 0 or any(c not in ws for c in a.string)):
+				return False
+			if i + 1 < len(toks):
+				b = toks[i + 1]
+				if space(a) and space(b):
+					return False
+				if a.type == T.Comment and b.type != T.LineBreak:
+					return False
+		return True
 
 	def significant(self, src: str) -> list[tuple[str, str]]:
 		"""The significant token sequence as tranp itself sees it (type name, string) — unary marker kept."""
@@ -464,6 +496,15 @@ def search_layout(ctx: Ctx, real: Real) -> SearchResult:
 			continue
 		res.cases += 1
 		seen.add(src)
+		# history: the shared Tokenizer instance (used for thousands of sources by now), asked again, and a brand-new
+		# instance must all agree
+		try:
+			again, fresh = real.significant(src), real.significant_fresh(src)
+		except Exception as e:  # noqa: BLE001
+			again = fresh = exc_enum(e)
+		if (again != base or fresh != base) and 'history' not in keys:
+			keys.add('history')
+			res.findings.append(Finding(key='history', what='Tokenizer().parse depends on earlier calls on the same instance', replay={'source': src}))
 		# (c) balance
 		ind = sum(1 for t, _ in base if t == 'Indent')
 		ded = sum(1 for t, _ in base if t == 'Dedent')
@@ -503,13 +544,76 @@ def search_layout(ctx: Ctx, real: Real) -> SearchResult:
 			res.samples.append({'source': src[:200], 'indents': ind, 'dedents': ded})
 	# boundary observation B1 (DESIGN.md §7): the witness of C13.balance_counterexample replayed on the real code
 	witness = 'if a:\n    if b:\n            x\n    y'
-	toks = real.significant(witness)
+	try:
+		toks = real.significant(witness)
+	except Exception as e:  # noqa: BLE001
+		toks = []
+		res.findings.append(Finding(key=f'tokenizer-raises:{exc_enum(e)}', what='Tokenizer().parse raises on the over-indented witness', replay={'source': witness}))
 	ind = sum(1 for t, _ in toks if t == 'Indent')
 	ded = sum(1 for t, _ in toks if t == 'Dedent')
 	hist[f'boundary:over-indent indents={ind} dedents={ded}'] += 1
 	ctx.notes.append(f'boundary B1 (not a finding): over-indented block {witness!r} gives {ind} INDENT / {ded} DEDENT on the real tokenizer — outside the consistent-unit subset; Lean: C13.balance_counterexample')
 	if (ind, ded) != (2, 3):
 		ctx.notes.append('boundary B1 no longer reproduces with 2/3: C13.balance_counterexample and the real code disagree (the correspondence stream decides)')
+	res.distinct = len(seen)
+	res.histogram = dict(hist)
+	return res
+
+
+def search_token_layout(ctx: Ctx, real: Real) -> SearchResult:
+	"""`C13.layout_tokens_statement` on the real code: insert / remove one WhiteSpace or Comment raw token in a raw token list
+	of the lexer's shape (both lists `lexShaped`), compare _rebuild(post_filter(.) + [EOF])."""
+	rng = ctx.sub_rng('token-layout')
+	res = SearchResult('token-level layout law (Lean: layout_tokens_statement): inserting/removing one WhiteSpace or Comment raw token in a lexer-shaped raw token list leaves _rebuild . post_filter unchanged')
+	hist: Counter[str] = Counter()
+	seen: set[str] = set()
+	keys: set[str] = set()
+	T = real.TokenTypes
+	mk = lambda ty, s: real.Token(ty, s, real.Token.SourceMap(0, 0, 0, 0))
+	for i in range(ctx.scale(250, 4000)):
+		src, _ = gen_source(rng, 'subset', 1 + (i * 3) % 12)
+		try:
+			toks = real.lexers['py'].parse_impl(src)
+			if not real.lex_shaped(toks):
+				raise AssertionError('raw tokens of the real lexer are not lexShaped')
+			base = real.pipeline(toks)
+		except Exception as e:  # noqa: BLE001
+			key = f'token-layout-raises:{exc_enum(e)}'
+			if key not in keys:
+				keys.add(key)
+				res.findings.append(Finding(key=key, what=f'lexer / post_filter / _rebuild raises on a source of the supported subset: {e}', replay={'source': src}))
+			continue
+		seen.add(src)
+		for _ in range(6):
+			kind = rng.choice(['ins-ws', 'ins-comment', 'ins-comment', 'del'])
+			if kind == 'del':
+				cand = [k for k, t in enumerate(toks) if t.type in (T.WhiteSpace, T.Comment)]
+				if not cand:
+					continue
+				k = rng.choice(cand)
+				other = toks[:k] + toks[k + 1:]
+			else:
+				k = rng.randint(0, len(toks))
+				if kind == 'ins-comment':
+					lbs = [j for j, t in enumerate(toks) if t.type == T.LineBreak] + [len(toks)]
+					k = rng.choice(lbs)
+				w = mk(T.WhiteSpace, rng.choice([' ', '\t', '   '])) if kind == 'ins-ws' else mk(T.Comment, rng.choice(['# c', '#', '# (']))
+				other = toks[:k] + [w] + toks[k:]
+			if not real.lex_shaped(other):
+				hist[f'{kind}:not-shaped'] += 1
+				continue
+			res.cases += 1
+			hist[kind] += 1
+			try:
+				got: Any = real.pipeline(other)
+			except Exception as e:  # noqa: BLE001
+				got = exc_enum(e)
+			if got != base and f'token-layout:{kind}' not in keys:
+				keys.add(f'token-layout:{kind}')
+				res.findings.append(Finding(key=f'token-layout:{kind}', what='inserting/removing an insignificant raw token changes the rebuilt token sequence',
+					replay={'source': src, 'position': k, 'kind': kind, 'tokens': base[:60], 'tokens_other': got[:60] if isinstance(got, list) else got}))
+		if len(res.samples) < 2:
+			res.samples.append({'source': src[:160], 'raw_tokens': len(toks)})
 	res.distinct = len(seen)
 	res.histogram = dict(hist)
 	return res
@@ -551,6 +655,7 @@ def search_laws(ctx: Ctx, real: Real) -> SearchResult:
 	for i in range(n):
 		r = i % 5
 		dn = 'py'
+		must_lex = r == 0
 		if r < 3:
 			src, _ = gen_source(rng, ['subset', 'wide', 'hazard'][r], 1 + (i * 3) % 14)
 		elif r == 3:
@@ -562,6 +667,9 @@ def search_laws(ctx: Ctx, real: Real) -> SearchResult:
 		seen.add(src)
 		verdict, key, detail = law_check(real, dn, src)
 		hist[f'{dn}:{verdict}'] += 1
+		if must_lex and verdict.startswith('raises:'):
+			# a source of the supported subset must be accepted (C13.total on the model side)
+			verdict, key, detail = 'bad', f'lexer-{verdict}', {}
 		if verdict == 'bad' and key not in keys:
 			keys.add(key or '?')
 			res.findings.append(Finding(key=key or '?', what=f'{key} law fails on the real lexer', replay={'source': src, 'definition': dn, **detail}))
@@ -577,16 +685,18 @@ def search_laws(ctx: Ctx, real: Real) -> SearchResult:
 
 
 STATEMENTS = {
-	'enums_tie': 'the enum values the model names (TokenTypes/TokenDomains/SpecialSymbols members) equal the dumped __members__',
-	'pyDef_wf / gramDef_wf': 'finite side conditions of both generated definitions (openers non-empty, "\\\\" not white space, symbol[15] = "-", …) by decide',
-	'progress': 'for every definition with the side conditions and every source: each sub-parser consumes >= 1 character and stays inside the source, so parse_impl never runs out of its len(source) fuel (the real loop terminates)',
-	'concat': 'for every source that parse_impl accepts, concatenating the raw token texts (unary marker read as "-") gives back the source',
-	'total': 'every source over the definition\'s alphabet that does not end in "-" is accepted by parse_impl',
-	'span': 'for every raw token, the slice of the source addressed by its (line, col) span is its text, and all span numbers are >= 0',
-	'balance': '#DEDENT - #INDENT of _rebuild\'s output equals the sum of (jump - 1) over indentation increases; balanced iff every increase is one unit',
-	'balance_counterexample': 'the valid-Python over-indented source `if a:\\n    if b:\\n            x\\n    y` gives 2 INDENT / 3 DEDENT (boundary B1)',
-	'layout_tokens_partial': 'rebuild . post_filter is unchanged by inserting a WhiteSpace or Comment raw token (see Props/C13.lean for the exact positions proved)',
-	'width': 'scaling every line-break width from multiples of u to the same multiples of u\' leaves the rebuilt token kinds/strings unchanged',
+	'enums_tie': 'the enum values the model names (TokenTypes / TokenDomains / SpecialSymbols members) equal the dumped __members__',
+	'pyDef_wf / gramDef_wf / pyDef_wfTotal / gramDef_wfTotal / pyDef_filters / gramDef_filters': 'finite side conditions of both generated definitions, decided over the whole dumped tables: openers and quote closers non-empty, backslash not white space, symbol[15] = "-", analyse order = the six known domains, every type value parse_symbol computes exists, the shipped post filter list',
+	'step': 'each dispatched sub-parser call consumes >= 1 character, stays inside the source, returns the consumed slice as text and its source map',
+	'progress': 'for every definition with the side conditions and every source, parse_impl (and the quote loop inside it) never exhausts its len(source) fuel: the real while loops terminate',
+	'concat': 'for every source parse_impl accepts, concatenating the raw token texts (unary marker read as "-") gives back the source',
+	'total': 'parse_impl accepts every source over the definition\'s alphabet that does not end in "-" (there: IndexError, example)',
+	'span': 'for every raw token the slice of the source addressed by its (line, col) span is its text; the four numbers are >= 0',
+	'balance': 'for every token list _rebuild accepts: #INDENT = number of indentation increases, #DEDENT + depth left open = sum of their sizes',
+	'balance_iff': 'with nothing left open: #INDENT = #DEDENT iff every increase is exactly one unit',
+	'balance_counterexample': 'NOT balance_statement: `if a:\\n    if b:\\n            x\\n    y` gives 2 INDENT / 3 DEDENT (boundary B1, replayed on the real code)',
+	'width': 'rescaling all line-break widths from multiples of u to the same multiples of u\' leaves _rebuild\'s result unchanged up to source maps (any u, u\' > 0, any token list, errors included)',
+	'layout_tokens_partial': 'within one logical line post_filter keeps exactly the significant tokens: any insertion/removal of Comment / WhiteSpace raw tokens leaves post_filter and _rebuild unchanged (full sentence = layout_tokens_statement, searched on the real code)',
 }
 
 
@@ -603,12 +713,13 @@ def run(ctx: Ctx) -> int:
 	with ctx.timed('correspondence'):
 		streams = [stream_lex(ctx, real), stream_real(ctx, real), stream_malformed(ctx, real)]
 	with ctx.timed('search'):
-		searches = [search_cpython(ctx, real), search_layout(ctx, real), search_laws(ctx, real)]
+		searches = [search_cpython(ctx, real), search_layout(ctx, real), search_token_layout(ctx, real), search_laws(ctx, real)]
 	return common.finish(ctx, proof, streams, searches,
 		translate_ok=translate_ok, translate_msg=translate_msg,
 		statements=STATEMENTS,
 		partial={
-			'proved': 'concat / progress / totality / span for parse_impl under every definition satisfying the decided side conditions; INDENT/DEDENT accounting of _rebuild; width invariance; layout_tokens in part',
+			'proved': 'concat / progress / totality / span for parse_impl under every definition satisfying the decided side conditions; INDENT/DEDENT accounting of _rebuild (and its falsity for over-indented blocks); width invariance of _rebuild; layout_tokens for single logical lines',
+			'stated_not_proved': 'layout_tokens_statement (token-level insertion/removal across line breaks): searched on the real code by search_token_layout',
 			'correspondence_only': 'the model is the code (three streams); post filter regex semantics (re.split) for the one pattern TokenDefinition ships',
 			'search_only': 'equality with CPython tokenize on the supported subset; the character-level layout rewrites (comments, blank lines, spaces around operators)',
 		},
